@@ -65,15 +65,28 @@ def make_stub(cx, iface, uid):
     return object.__new__(cls)
 
 
-def find_contract(module_names, qname):
+def find_contract(module_names, key):
+    """key: 'qname' or 'qname#<property>' (a further contract of the same function in another module)"""
+    qname, _, prop = key.partition('#')
+    prop = prop.partition('.')[0]
+    found = []
     for mn in module_names:
         mod = importlib.import_module(mn)
         m = getattr(mod, 'M', None)
         if isinstance(m, Module):
             for c in m.contracts:
                 if c.qname == qname:
-                    return c
-    raise LookupError(qname)
+                    found.append((m, c))
+    if prop:
+        for m, c in found:
+            if m.prop == prop:
+                return c
+    for m, c in found:
+        if not c.trusted:
+            return c
+    if found:
+        return found[0][1]
+    raise LookupError(key)
 
 
 def stub_trusted(module_names, cx):
@@ -141,6 +154,7 @@ def run_generic(module_names, qname, obligation, model):
     """Rebuild the counter-model's inputs, call the real function, evaluate the clause natively.
     Returns the exit status of the replay script."""
     c = find_contract(module_names, qname)
+    qname = c.qname
     obj, owner = frontend.resolve_qualified(qname)
     func = frontend.raw_function(obj)
     cx = ConcreteCtx(model)
